@@ -142,8 +142,11 @@ let nth_default a i d = if i >= 0 && i < Array.length a then a.(i) else d
 let verdict case impl =
   match case with
   | "H" :: ext :: nnodes :: ns :: rest ->
-    let ext = (ext = "1") in
-    let _nnodes = int_of_string ("0x" ^ nnodes) in
+    let nnodes = int_of_string ("0x" ^ nnodes) in
+    let exts = if String.length ext = 1 then Array.make nnodes (ext = "1")
+      else Array.init nnodes (fun i -> ext.[i] = '1') in
+    let ext_of nd = if nd >= 0 && nd < nnodes then exts.(nd) else false in
+    let mixed = Array.exists (fun e -> e <> exts.(0)) exts in
     let ns = int_of_string ("0x" ^ ns) in
     let rec split k l acc = if k = 0 then (List.rev acc, l) else match l with x :: r -> split (k - 1) r (x :: acc) | [] -> failwith "short case" in
     let (stoks, optoks) = split ns rest [] in
@@ -168,11 +171,13 @@ let verdict case impl =
       mid_of = (fun i v -> fst (ver i v));
       sid = (fun i k -> if k = N0 then (sd i).sid else (sd i).sid @ [k]);
       late = (fun i -> (sd i).late) } in
-    let init : nat -> meta = fun i ->
+    (* the initial cell is the result metadata of the PREPARED answer Session::prepare picked: with the
+       id of version 0 if that node has the extension, without an id otherwise (C14_prepare_on_all) *)
+    let init_of (with_id : bool) : nat -> meta = fun i ->
       let (mid, cols) = ver i N0 in
-      meta_of_cols (if ext then Some mid else None) (if (sd i).late then [] else cols) in
-    let nodes : nat -> node = fun _ ->
-      { n_ext = ext; n_prep = (fun _ -> true); n_ver = (fun _ -> N0); n_salt = (fun _ -> N0) } in
+      meta_of_cols (if with_id then Some mid else None) (if (sd i).late then [] else cols) in
+    let nodes : nat -> node = fun nd ->
+      { n_ext = ext_of (int_of_nat nd); n_prep = (fun _ -> true); n_ver = (fun _ -> N0); n_salt = (fun _ -> N0) } in
     (* observations *)
     let obs = ref impl in
     let next_obs () = match !obs with x :: r -> obs := r; x | [] -> raise (Notrun "runner produced fewer observations than the case has calls") in
@@ -189,7 +194,7 @@ let verdict case impl =
         let xl = if xs = "-" then [] else List.map (fun e ->
             match String.index_opt e '>' with
             | Some i ->
-              let (r, enc, pay) = resp_of_ext ext (String.sub e (i + 1) (String.length e - i - 1)) in
+              let (r, enc, pay) = resp_of_ext (ext_of nd) (String.sub e (i + 1) (String.length e - i - 1)) in
               { x_req = request_of (String.sub e 0 i); x_resp = r; x_enc = enc; x_pay = pay }
             | None -> failwith "bad exchange") (fields ';' xs) in
         (xl, out)
@@ -213,7 +218,7 @@ let verdict case impl =
           let node = int_of_string ("0x" ^ node) in
           let a = xargs_of s uc psize (ob_of paging) value cons serial ts in
           let (xl, out) = parse_obs node in
-          push_op (TO_exec (nat_of_int node, ext, a, xl, out))
+          push_op (TO_exec (nat_of_int node, ext_of node, a, xl, out))
         | ["I"; s; node; uc; psize; value; cons; serial; ts; _pseed; _pages] ->
           (* execute_iter: one model call per page the pager fetched; page j+1 starts from the
              paging state the answer to page j carried *)
@@ -230,7 +235,7 @@ let verdict case impl =
             (match List.rev xl with
              | { x_resp = RRows b; _ } :: _ -> paging := b.rb_paging; more := (b.rb_paging <> None)
              | _ -> more := false);
-            push_op (TO_exec (nat_of_int node, ext, a, xl, out))
+            push_op (TO_exec (nat_of_int node, ext_of node, a, xl, out))
           done
         | ["B"; node; ty; cons; serial; ts; its] ->
           let node = int_of_string ("0x" ^ node) in
@@ -242,7 +247,7 @@ let verdict case impl =
           let b = { ba_items = List.map item (fields '+' its); ba_type = n_of_hex ty; ba_cons = n_of_hex cons;
                     ba_serial = on_of serial; ba_ts = oz_of ts } in
           let (xl, out) = parse_obs node in
-          push_op (TO_batch (nat_of_int node, ext, b, xl, out))
+          push_op (TO_batch (nat_of_int node, ext_of node, b, xl, out))
         | ["E"; node; kind; s; arg] ->
           let s = nat_of_int (int_of_string ("0x" ^ s)) in
           let e = match kind with
@@ -260,122 +265,184 @@ let verdict case impl =
       | V_out cs -> "outcome model=" ^ string_of_cstate cs
       | V_srv (pos, _) -> Printf.sprintf "mock-answer#%d differs from the specification node" (int_of_nat pos)
       | V_stuck -> "stuck" in
-    let an0 = { an_latest = (fun i -> (init i).m_cols); an_id = (fun i -> (init i).m_id); an_reprep = (fun _ -> false) } in
-    let spec_history = (not !forced) && (not !has_par) in
-    (* the property predicate on one client op of the implementation's own trace *)
-    let prop_ok o =
-      match o with
-      | TO_exec (_, e, a, xs, out) ->
-        prop_exec_ok st ((not !forced) && (e || not a.xa_use_cached)) a xs out
-      | TO_batch (_, _, b, xs, out) -> prop_batch_tail st b (mk_batch_frame st b) xs out
-      | TO_event _ -> true in
-    (* the announced-metadata bookkeeping (decoded columns, presented id, skip flag) up to op k *)
-    let bookkeeping upto =
-      if not spec_history then [] else
-        let rec firstn k l = if k <= 0 then [] else match l with x :: r -> x :: firstn (k - 1) r | [] -> [] in
-        stale_check st (nat_of_int ns) true an0 O (firstn upto tr) in
-    (* run the model over the items *)
-    let rec run g c idx = function
-      | [] -> `Fine g
-      | `Seq o :: rest ->
-        (match g_accept st g (nat_of_int c) [o] with
-         | (_, V_ok g') -> run g' (c + 1) (idx + 1) rest
-         | (_, v) -> `Bad (idx, [o], show_v v))
-      | `Par (a, b) :: rest ->
-        let pc id o = match o with
-          | TO_exec (_, e, ar, xs, out) -> { pc_id = nat_of_int id; pc_ext = e; pc_args = ar; pc_started = false; pc_xs = xs; pc_out = out }
-          | _ -> failwith "Y needs two X ops" in
-        (* any interleaving of the two calls' client-side steps after which the rest of the history runs *)
-        let fine g' = (match run g' (c + 2) (idx + 2) rest with `Fine _ -> true | `Bad _ -> false) in
-        (match g_par (nat_of_int 80) st fine g [] [pc c a; pc (c + 1) b] with
-         | Some g' -> run g' (c + 2) (idx + 2) rest
-         | None ->
-           (match g_par (nat_of_int 80) st (fun _ -> true) g [] [pc c a; pc (c + 1) b] with
-            | Some g' -> run g' (c + 2) (idx + 2) rest      (* reports the later op that no interleaving explains *)
-            | None -> `Bad (idx, [a; b], "no interleaving of the two concurrent calls is a run of the model"))) in
-    (* "the new metadata id … is also what the next execution presents", for histories with
-       concurrent callers too: per statement, [recent] = the ids announced by the latest item (operation
-       or concurrent pair) that announced any, [older] = every id announced before (and the one of
-       preparation).  An EXECUTE of the mismatching ops that presents an id of [older] that is not in
-       [recent] has gone back to an older announcement. *)
-    let older_id_presented idx ops =
-      let announced o = match o with
-        | TO_exec (_, _, a, xs, _) ->
-          List.concat_map (fun x -> match x.x_req, x.x_resp with
-              | Q_execute _, RRows { rb_meta = RM_full (Some i, _); _ } -> [(int_of_nat a.xa_stmt, i)]
-              | Q_prepare _, RPrepared (id, m) when id = (st a.xa_stmt).s_id && m.m_cols <> [] ->
-                (match m.m_id with Some i -> [(int_of_nat a.xa_stmt, i)] | None -> [])
-              | _ -> []) xs
-        | _ -> [] in
-      let recent = Hashtbl.create 4 and older = Hashtbl.create 4 in
-      for s = 0 to ns - 1 do
-        (match (init (nat_of_int s)).m_id with Some i -> Hashtbl.replace recent s [i] | None -> Hashtbl.replace recent s []);
-        Hashtbl.replace older s []
-      done;
-      let pos = ref 0 in
-      List.iter (fun it ->
-          let os = (match it with `Seq o -> [o] | `Par (a, b) -> [a; b]) in
-          if !pos < idx then begin
-            let ann = List.concat_map announced os in
-            List.iter (fun s ->
-                let mine = List.filter_map (fun (s', i) -> if s' = s then Some i else None) ann in
-                if mine <> [] then begin
-                  Hashtbl.replace older s ((try Hashtbl.find recent s with Not_found -> []) @ (try Hashtbl.find older s with Not_found -> []));
-                  Hashtbl.replace recent s mine
-                end) (List.init ns (fun s -> s))
-          end;
-          pos := !pos + List.length os) items;
-      List.exists (fun o -> match o with
-          | TO_exec (_, true, a, xs, _) ->
-            let s = int_of_nat a.xa_stmt in
-            let r = (try Hashtbl.find recent s with Not_found -> []) and ol = (try Hashtbl.find older s with Not_found -> []) in
-            (match xs with
-             | { x_req = Q_execute f; _ } :: _ ->
-               (match f.f_rmid with Some i -> i <> [] && List.mem i ol && not (List.mem i r) | None -> false)
-             | _ -> false)
-          | _ -> false) ops in
-    (match run (ginit init) 0 0 items with
-     | `Bad (idx, ops, why) ->
-       (* model and implementation differ on these ops: property failure or broken correspondence? *)
-       let bad_book = List.filter (fun (i, cl) -> int_of_nat i >= idx && cl <> Some true) (bookkeeping (idx + List.length ops)) in
-       if List.exists (fun o -> not (prop_ok o)) ops then
-         Printf.sprintf "viol op=%d property predicate fails on the implementation's trace; model mismatch: %s" idx why
-       else if bad_book <> [] then
-         Printf.sprintf "viol op=%d %s; model mismatch: %s" idx
-           (match snd (List.hd bad_book) with
-            | None -> "an EXECUTE presents another metadata id / skip flag than the most recently announced metadata asks for"
-            | _ -> "rows decoded with columns other than the most recently announced") why
-       else if (not !forced) && older_id_presented idx ops then
-         Printf.sprintf "viol op=%d an EXECUTE presents a metadata id older than the last announced one (stale snapshot written back?); model mismatch: %s" idx why
-       else Printf.sprintf "diff op=%d %s" idx why
-     | `Fine gfinal ->
-       (* accepted by the generic system.  Property predicate before every ok. *)
-       let bad = List.concat (List.mapi (fun i o -> if prop_ok o then [] else [i]) tr) in
-       if bad <> [] then
-         Printf.sprintf "viol ops=%s property predicate fails on a trace the model accepts" (String.concat "," (List.map string_of_int bad))
-       else if not spec_history then "ok" else
-         (match s_accept d st (nat_of_int ns) (sinit init nodes) O tr with
-          | (_, V_ok _) ->
-            (* model = implementation = specification nodes.  The model follows the code AS IT IS;
-               the property's own bookkeeping (metadata most recently announced for the statement)
-               is evaluated on the implementation's trace: known finding F17 *)
-            let ncalls = nat_of_int (List.length tr) in
-            let decoded i = match List.nth tr (int_of_nat i) with
-              | TO_exec (_, _, _, _, OB_rows (c, _, _, _)) -> c | _ -> [] in
-            (match bookkeeping (List.length tr) with
-             | [] -> "ok"
-             | hits ->
-               let idx l = String.concat "," (List.map (fun (i, _) -> string_of_int (int_of_nat i)) l) in
-               let in_class (i, cl) = cl = Some true && known_classb st gfinal ncalls i (decoded i) in
-               let outside = List.filter (fun h -> not (in_class h)) hits in
-               if outside <> [] then
-                 Printf.sprintf "viol %s ops=%s"
-                   (if List.exists (fun (_, cl) -> cl = None) outside
-                    then "an EXECUTE presents another metadata id / skip flag than announced"
-                    else "rows decoded with columns other than the most recently announced") (idx outside)
-               else
-                 Printf.sprintf "viol class=stale-cached-metadata-without-ext ops=%s (no extension, cached metadata requested, re-preparation announced other columns)" (idx hits))
-          | (i, v) -> Printf.sprintf "error spec-system op=%d %s" (int_of_nat i) (show_v v)))
+    let judge (init : nat -> meta) =
+      let an0 = { an_latest = (fun i -> (init i).m_cols); an_id = (fun i -> (init i).m_id); an_reprep = (fun _ -> false) } in
+      let spec_history = (not !forced) && (not !has_par) in
+      let book_history = spec_history && not mixed in
+      (* the property predicate on one client op of the implementation's own trace *)
+      let prop_ok o =
+        match o with
+        | TO_exec (_, e, a, xs, out) ->
+          prop_exec_ok st ((not !forced) && (e || not a.xa_use_cached)) a xs out
+        | TO_batch (_, _, b, xs, out) -> prop_batch_tail st b (mk_batch_frame st b) xs out
+        | TO_event _ -> true in
+      (* the announced-metadata bookkeeping (decoded columns, presented id, skip flag) up to op k *)
+      let bookkeeping upto =
+        if not book_history then [] else
+          let rec firstn k l = if k <= 0 then [] else match l with x :: r -> x :: firstn (k - 1) r | [] -> [] in
+          stale_check st (nat_of_int ns) true an0 O (firstn upto tr) in
+      (* run the model over the items *)
+      let rec run g c idx = function
+        | [] -> `Fine g
+        | `Seq o :: rest ->
+          (match g_accept st g (nat_of_int c) [o] with
+           | (_, V_ok g') -> run g' (c + 1) (idx + 1) rest
+           | (_, v) -> `Bad (idx, [o], show_v v))
+        | `Par (a, b) :: rest ->
+          let pc id o = match o with
+            | TO_exec (_, e, ar, xs, out) -> { pc_id = nat_of_int id; pc_ext = e; pc_args = ar; pc_started = false; pc_xs = xs; pc_out = out }
+            | _ -> failwith "Y needs two X ops" in
+          (* any interleaving of the two calls' client-side steps after which the rest of the history runs *)
+          let fine g' = (match run g' (c + 2) (idx + 2) rest with `Fine _ -> true | `Bad _ -> false) in
+          (match g_par (nat_of_int 80) st fine g [] [pc c a; pc (c + 1) b] with
+           | Some g' -> run g' (c + 2) (idx + 2) rest
+           | None ->
+             (match g_par (nat_of_int 80) st (fun _ -> true) g [] [pc c a; pc (c + 1) b] with
+              | Some g' -> run g' (c + 2) (idx + 2) rest      (* reports the later op that no interleaving explains *)
+              | None -> `Bad (idx, [a; b], "no interleaving of the two concurrent calls is a run of the model"))) in
+      (* "the new metadata id … is also what the next execution presents", for histories with
+         concurrent callers too: per statement, [recent] = the ids announced by the latest item (operation
+         or concurrent pair) that announced any, [older] = every id announced before (and the one of
+         preparation).  An EXECUTE of the mismatching ops that presents an id of [older] that is not in
+         [recent] has gone back to an older announcement. *)
+      let older_id_presented idx ops =
+        let announced o = match o with
+          | TO_exec (_, _, a, xs, _) ->
+            List.concat_map (fun x -> match x.x_req, x.x_resp with
+                | Q_execute _, RRows { rb_meta = RM_full (Some i, _); _ } -> [(int_of_nat a.xa_stmt, i)]
+                | Q_prepare _, RPrepared (id, m) when id = (st a.xa_stmt).s_id && m.m_cols <> [] ->
+                  (match m.m_id with Some i -> [(int_of_nat a.xa_stmt, i)] | None -> [])
+                | _ -> []) xs
+          | _ -> [] in
+        let recent = Hashtbl.create 4 and older = Hashtbl.create 4 in
+        for s = 0 to ns - 1 do
+          (match (init (nat_of_int s)).m_id with Some i -> Hashtbl.replace recent s [i] | None -> Hashtbl.replace recent s []);
+          Hashtbl.replace older s []
+        done;
+        let pos = ref 0 in
+        List.iter (fun it ->
+            let os = (match it with `Seq o -> [o] | `Par (a, b) -> [a; b]) in
+            if !pos < idx then begin
+              let ann = List.concat_map announced os in
+              List.iter (fun s ->
+                  let mine = List.filter_map (fun (s', i) -> if s' = s then Some i else None) ann in
+                  if mine <> [] then begin
+                    Hashtbl.replace older s ((try Hashtbl.find recent s with Not_found -> []) @ (try Hashtbl.find older s with Not_found -> []));
+                    Hashtbl.replace recent s mine
+                  end) (List.init ns (fun s -> s))
+            end;
+            pos := !pos + List.length os) items;
+        List.exists (fun o -> match o with
+            | TO_exec (_, true, a, xs, _) ->
+              let s = int_of_nat a.xa_stmt in
+              let r = (try Hashtbl.find recent s with Not_found -> []) and ol = (try Hashtbl.find older s with Not_found -> []) in
+              (match xs with
+               | { x_req = Q_execute f; _ } :: _ ->
+                 (match f.f_rmid with Some i -> i <> [] && List.mem i ol && not (List.mem i r) | None -> false)
+               | _ -> false)
+            | _ -> false) ops in
+      (match run (ginit init) 0 0 items with
+       | `Bad (idx, ops, why) ->
+         (* model and implementation differ on these ops: property failure or broken correspondence? *)
+         let bad_book = List.filter (fun (i, cl) -> int_of_nat i >= idx && cl <> Some true) (bookkeeping (idx + List.length ops)) in
+         if List.exists (fun o -> not (prop_ok o)) ops then
+           Printf.sprintf "viol op=%d property predicate fails on the implementation's trace; model mismatch: %s" idx why
+         else if bad_book <> [] then
+           Printf.sprintf "viol op=%d %s; model mismatch: %s" idx
+             (match snd (List.hd bad_book) with
+              | None -> "an EXECUTE presents another metadata id / skip flag than the most recently announced metadata asks for"
+              | _ -> "rows decoded with columns other than the most recently announced") why
+         else if (not !forced) && older_id_presented idx ops then
+           Printf.sprintf "viol op=%d an EXECUTE presents a metadata id older than the last announced one (stale snapshot written back?); model mismatch: %s" idx why
+         else Printf.sprintf "diff op=%d %s" idx why
+       | `Fine gfinal ->
+         (* accepted by the generic system.  Property predicate before every ok. *)
+         let bad = List.concat (List.mapi (fun i o -> if prop_ok o then [] else [i]) tr) in
+         if bad <> [] then
+           Printf.sprintf "viol ops=%s property predicate fails on a trace the model accepts" (String.concat "," (List.map string_of_int bad))
+         else if not spec_history then "ok" else
+           (match s_accept d st (nat_of_int ns) (sinit init nodes) O tr with
+            | (_, V_ok _) ->
+              (* model = implementation = specification nodes.  The model follows the code AS IT IS;
+                 the property's own bookkeeping (metadata most recently announced for the statement)
+                 is evaluated on the implementation's trace: known finding F17 *)
+              let ncalls = nat_of_int (List.length tr) in
+              let decoded i = match List.nth tr (int_of_nat i) with
+                | TO_exec (_, _, _, _, OB_rows (c, _, _, _)) -> c | _ -> [] in
+              (match bookkeeping (List.length tr) with
+               | [] -> "ok"
+               | hits ->
+                 let idx l = String.concat "," (List.map (fun (i, _) -> string_of_int (int_of_nat i)) l) in
+                 let in_class (i, cl) = cl = Some true && known_classb st gfinal ncalls i (decoded i) in
+                 let outside = List.filter (fun h -> not (in_class h)) hits in
+                 if outside <> [] then
+                   Printf.sprintf "viol %s ops=%s"
+                     (if List.exists (fun (_, cl) -> cl = None) outside
+                      then "an EXECUTE presents another metadata id / skip flag than announced"
+                      else "rows decoded with columns other than the most recently announced") (idx outside)
+                 else
+                   Printf.sprintf "viol class=stale-cached-metadata-without-ext ops=%s (no extension, cached metadata requested, re-preparation announced other columns)" (idx hits))
+            | (i, v) -> Printf.sprintf "error spec-system op=%d %s" (int_of_nat i) (show_v v))) in
+    (* mixed cluster: either kind of node may have answered the PREPARE that Session::prepare kept *)
+    let candidates = List.sort_uniq compare (Array.to_list exts) in
+    let verdicts = List.map (fun e -> judge (init_of e)) (List.rev candidates) in
+    (match List.filter (fun v -> String.length v >= 2 && String.sub v 0 2 = "ok") verdicts with
+     | v :: _ -> v
+     | [] -> (match List.filter (fun v -> String.length v >= 10 && String.sub v 0 10 = "viol class") verdicts with
+         | v :: _ -> v
+         | [] -> List.hd verdicts))
+  | "P" :: exts :: stok :: optoks ->
+    (* Session::prepare against nodes in different states *)
+    let nnodes = String.length exts in
+    let ext_of nd = nd >= 0 && nd < nnodes && exts.[nd] = '1' in
+    let (late, sid, vers) = (match fields '/' stok with
+        | ["S"; late; sid; vers] ->
+          (late = "1", bytes_of_hexstr sid,
+           Array.of_list (List.map (fun v -> match String.index_opt v '=' with
+               | Some i -> (bytes_of_hexstr (String.sub v 0 i), cols_of_string (String.sub v (i + 1) (String.length v - i - 1)))
+               | None -> failwith "bad version") (fields ',' vers)))
+        | _ -> failwith "bad stmt") in
+    let st : nat -> stmt = fun i -> if i = O then { s_id = sid; s_text = n_of_int 1 } else { s_id = [n_of_int 255]; s_text = n_of_int 99999 } in
+    let ver v = nth_default vers (int_of_n v) ([n_of_int 0], []) in
+    let d : schema = { cols_of = (fun _ v -> snd (ver v)); mid_of = (fun _ v -> fst (ver v));
+                       sid = (fun _ k -> if k = N0 then sid else sid @ [k]); late = (fun _ -> late) } in
+    let nodes = Array.init nnodes (fun nd -> { n_ext = ext_of nd; n_prep = (fun _ -> false); n_ver = (fun _ -> N0); n_salt = (fun _ -> N0) }) in
+    let forced = ref false in
+    List.iter (fun t -> match fields '/' t with
+        | ["E"; node; kind; s; arg] ->
+          let nd = int_of_string ("0x" ^ node) and s = nat_of_int (int_of_string ("0x" ^ s)) in
+          let e = match kind with "p" -> EV_prepared s | "e" -> EV_evicted s | "s" -> EV_schema (s, n_of_hex arg) | _ -> EV_idchange (s, n_of_hex arg) in
+          nodes.(nd) <- node_event nodes.(nd) e
+        | "F" :: _ -> forced := true
+        | _ -> failwith "bad P op") optoks;
+    (match impl with
+     | [tok] ->
+       (match fields '/' tok with
+        | ["Q"; xs; out] ->
+          let rs = List.map (fun e -> match String.index_opt e '@' with
+              | Some i ->
+                let nd = int_of_string ("0x" ^ String.sub e 0 i) in
+                let (r, _, _) = resp_of_ext (ext_of nd) (String.sub e (i + 1) (String.length e - i - 1)) in
+                (nd, r)
+              | None -> failwith "bad P exchange") (fields ';' xs) in
+          (* every unforced answer is the specification node's *)
+          let n_rs = List.length rs in
+          let rec split k l = if k = 0 then ([], l) else match l with x :: r -> let (a, b) = split (k - 1) r in (x :: a, b) | [] -> ([], []) in
+          let (round1, round2) = split nnodes rs in
+          let conform = !forced || List.for_all (fun (nd, r) ->
+              let ((_, r'), _) = node_answer d st (nat_of_int 1) nodes.(nd) (Q_prepare (n_of_int 1)) { p_paging = None; p_nrows = N0; p_cells = [] } in
+              resp_eqb r' r) rs in
+          let obs = (match fields ':' out with
+              | ["ok"; id; cols] -> PO_ok (bytes_of_hexstr id, cols_of_string cols)
+              | ["e"; "mismatch"] -> PO_err PE_IdsMismatch
+              | ["e"; "allfailed"] -> PO_err PE_AllFailed
+              | _ -> raise (Notrun ("prepare ended with " ^ out))) in
+          if not conform then "error mock-answer differs from the specification node (P)"
+          else if n_rs <> nnodes && n_rs <> 2 * nnodes then raise (Notrun "PREPARE did not reach every node")
+          else if session_prep_accept (List.map snd round1) (if round2 = [] then None else Some (List.map snd round2)) obs then "ok"
+          else "viol Session::prepare returned something no order of the nodes' answers explains"
+        | _ -> failwith "bad P observation")
+     | _ -> failwith "bad P observation")
   | _ -> "error unknown-case"
 
 let verdict case impl =
